@@ -266,6 +266,8 @@ class JSON(Filetype):
                    f'(char {de.pos})'
         except UnicodeDecodeError as ue:
             return f'Error parsing {os.path.basename(path)}: {ue!s}'
+        except RecursionError:
+            return f'Error parsing {os.path.basename(path)}: the document is nested too deeply'
 
     def get_default_formatter(self) -> JSONFormatter:
         return JSONFormatter.DEFAULT_INSTANCE
@@ -311,6 +313,8 @@ class JSON5(Filetype):
             return self.build_tree(path=path, options=options)
         except ValueError as ve:
             return f'Error parsing {os.path.basename(path)}: {ve!s}'
+        except RecursionError:
+            return f'Error parsing {os.path.basename(path)}: the document is nested too deeply'
 
     def get_default_formatter(self) -> JSONFormatter:
         return JSONFormatter.DEFAULT_INSTANCE
